@@ -101,6 +101,10 @@ class Ghost:
         for (i, y) in self.pairs:
             if z3.eq(y, x):
                 return i
+        c.trust("INV proofs: an entry number i stands for BV2Int(x) of the np.uint64 counter x; only order-isomorphism consequences, "
+                "zero, range (< 2^40) and the successor fact (lemma:bv2int-successor, cvc5) are asserted -- the term BV2Int(x) is kept out of the queries")
+        c.trust("INV proofs: instances of the next-id lemmas (c05_sharded.NextIdLemmas / NextIdSuccessor: class bits kept, strictly increasing, successor) "
+                "are assumed at the instantiated points; ID(i) := next-id(i) by definition")
         g = (lambda f: f) if guard is None else (lambda f: z3.Implies(guard, f))
         i = c.int("idx") if as_int is None else as_int
         # i stands for BV2Int(x). The term BV2Int(x) itself is kept out of the queries (z3's mixed
@@ -147,6 +151,9 @@ class Ghost:
 
     def ps_facts(self, c, i):
         """definition of the prefix sums at i, and monotonicity against the other instantiated points"""
+        c.trust("INV proofs: ghost prefix sums PS of the stored sizes: definition instances PS(i+1) == PS(i) + S_len(ID(i)), PS(0) == 0; "
+                "monotonicity PS(a) <= PS(b) for a <= b is ASSUMED (induction on b - a, sizes are non-negative)")
+        c.trust("stated bounds of the INV proofs: fewer than 2^40 entries, encoded chunks shorter than 2^50 bytes, the class has more than n+1 ids")
         c.assume(self.PS(0) == 0)
         c.assume(self.S_len(self.id_at(i)) >= 0)
         c.assume(implies(i >= 0, self.PS(i + 1) == self.PS(i) + self.S_len(self.id_at(i))))
@@ -602,6 +609,7 @@ def with_store(c, G, cmc, enc, n):
     G2.P = lambda k: Or(SBool(k == cmc), old_P(k))
 
     def frame(q):
+        c.trust("INV proofs: prefix-sum frame lemma (PS' == PS up to entry n when the stored sizes before ID(n) are unchanged): ASSUMED (induction)")
         c.assume(implies(And(q >= 0, q <= n), G2.PS(q) == G.PS(q)))
     G2.frame = frame
     return G2
